@@ -166,8 +166,9 @@ def gen(rng, tier):
         smp = None
         if rng.random() < 0.5:
             smp = rng.sample(samples, rng.randint(2, NS))
-            if rng.random() < 0.25:
-                smp.append("ghost")
+            if rng.random() < 0.3:
+                # an unknown sample: unrelated, or a longer name that begins with a known one
+                smp.append(rng.choice(["ghost", "ghost", "s12", "s0_extra", "twin A2"]))
         c["samples"] = smp
         c["sort"] = rng.random() < 0.6
         # further options that must reach the entry point unchanged (each on its own is exercised elsewhere)
@@ -232,7 +233,7 @@ def impl(case):
         # a report = a haptools log warning, or the warning cyvcf2 issues for requested samples absent from a VCF
         res["reported"] = any(l == "WARNING" for l, _ in cap.records) or any("requested samples" in str(w.message) for w in pyw)
         res["out"] = [read_vcf(o / f) if (o / f).exists() else None for f in ("a.vcf", "b.vcf", "c.vcf")]
-        unknown = (ids and any(x.startswith("nosuchID") for x in ids)) or (smp and "ghost" in smp)
+        unknown = (ids and any(x.startswith("nosuchID") for x in ids)) or (smp and any(x not in SAMPLES for x in smp))
         if unknown:
             # the report must also come out of the command line when the Python entry point ran before it in the same
             # process with its default logger (library logging is switched back on for this one observation)
@@ -414,7 +415,7 @@ def oracle(case, obs):
         ws = [s for s in SAMPLES if case["samples"] is None or s in case["samples"]]
         if a["samples"] != ws:
             return f"transform output samples {a['samples']} for requested {case['samples']}"
-        unknown = (case["ids"] and any(x.startswith("nosuchID") for x in case["ids"])) or (case["samples"] and "ghost" in case["samples"])
+        unknown = (case["ids"] and any(x.startswith("nosuchID") for x in case["ids"])) or (case["samples"] and any(x not in SAMPLES for x in case["samples"]))
         if unknown and not obs["reported"]:
             return "unknown IDs / samples were dropped without being reported"
         if unknown and obs.get("cli_reported_after_api") is False:
